@@ -254,6 +254,46 @@ def unfold_positions(rng, pos, H, ppp=None, frac=0.35, mmax=3):
     return out
 
 
+def jitter_positions(rng, pos, amp=0.25, nd=3):
+    """every coordinate moved by a decimal-grid amount in [−amp, amp] (rows of decimal strings → rows of decimal strings)"""
+    from decimal import Decimal
+    q = 10 ** nd
+    a = int(round(amp * q))
+    return [[format(Decimal(str(x)) + Decimal(rng.randint(-a, a)) / q, "f") for x in row] for row in pos]
+
+
+def with_history(fn):
+    """wrap a real-call function f(case, …): when the case carries `after` (an earlier case of the same call history: a sibling
+    that shares whatever a cache could be keyed on) the earlier call is made first in the same process, its result discarded —
+    so a history-dependent failure is reproducible from the case alone (replay, shrinking)"""
+    def wrapped(c, *a, **k):
+        prev = c.get("after") if isinstance(c, dict) else None
+        if isinstance(prev, dict):
+            try:
+                fn(prev, *a, **k)
+            except Exception:      # noqa: BLE001 — only history
+                pass
+        return fn(c, *a, **k)
+    wrapped.__name__ = getattr(fn, "__name__", "wrapped")
+    wrapped.__doc__ = fn.__doc__
+    return wrapped
+
+
+def add_siblings(rng, cases, sib, every=4):
+    """after every `every`-th case insert sib(rng, case): a case that shares everything a cache could be keyed on (labels, sizes,
+    cell, parameters) and differs in the payload (positions / values); the sibling carries its predecessor as `after`"""
+    out = []
+    for i, c in enumerate(cases):
+        out.append(c)
+        if i % every == 0 and isinstance(c, dict) and "after" not in c:
+            s = sib(rng, c)
+            if s is not None:
+                s["after"] = {k: v for k, v in c.items() if k != "after"}
+                s["sibling"] = True
+                out.append(s)
+    return out
+
+
 # ----------------------------------------------------------------------------- findings / evidence
 
 def load_known():
